@@ -363,16 +363,23 @@ class Interp(InterpBase, ExprMixin, AttrMixin, CallMixin, StmtMixin, CompMixin):
             if init is None:
                 continue
             sname = init.params[0]
+            assigned = {}
             for n in ast.walk(init.node):
-                if isinstance(n, ast.Assign):
-                    for tg in n.targets:
-                        if isinstance(tg, ast.Attribute) and isinstance(tg.value, ast.Name) and tg.value.id == sname:
-                            if self.M.lookup(c, tg.attr, "getters") is not None:
-                                continue
-                            if isinstance(n.value, ast.Constant):
-                                self.heap[(selfv.t, tg.attr)] = const(n.value.value)
-                            elif (selfv.t, tg.attr) in self.heap:
-                                del self.heap[(selfv.t, tg.attr)]
+                if isinstance(n, (ast.Assign, ast.AugAssign, ast.AnnAssign)):
+                    tgs = n.targets if isinstance(n, ast.Assign) else [n.target]
+                    for tg in tgs:
+                        for x in ast.walk(tg):
+                            if isinstance(x, ast.Attribute) and isinstance(x.value, ast.Name) and x.value.id == sname \
+                                    and isinstance(x.ctx, ast.Store):
+                                assigned.setdefault(x.attr, []).append(n.value if isinstance(n, ast.Assign) and x is tg else None)
+            for attr, vals in assigned.items():
+                if self.M.lookup(c, attr, "getters") is not None:
+                    continue
+                # a field has a known initial value only if the constructor assigns it exactly once, a constant
+                if len(vals) == 1 and isinstance(vals[0], ast.Constant):
+                    self.heap[(selfv.t, attr)] = const(vals[0].value)
+                elif (selfv.t, attr) in self.heap:
+                    del self.heap[(selfv.t, attr)]
 
     def execute(self):
         if getattr(self, 'sub_env', None) is not None:
